@@ -258,7 +258,8 @@ def r1(ctx, cfg):
     f = ctx.need_fn(R, key)
     if f is not None:
         views = [t["callee"]["key"] for b, t in f.calls() if t["callee"]["key"].startswith(PS)]
-        ctx.ob(R, key, "builds-ReadonlyPrefixedStorage", views == [PS + "ReadonlyPrefixedStorage::multilevel"], "contract_storage builds %s" % views, fn=f,
+        ctx.ob(R, key, "builds-ReadonlyPrefixedStorage", views in ([PS + "ReadonlyPrefixedStorage::multilevel"], [PS + "prefixed_multilevel_read"]),   # the alias is checked below
+           "contract_storage builds %s" % views, fn=f,
                sample=str(views))
     for name, want in (("prefixed_read", "ReadonlyPrefixedStorage::new"), ("prefixed_multilevel_read", "ReadonlyPrefixedStorage::multilevel"),
                        ("prefixed", "PrefixedStorage::new"), ("prefixed_multilevel", "PrefixedStorage::multilevel")):
